@@ -101,6 +101,25 @@ def run(ctx):
             ctx.count('spectrum_numeric', 1, nontrivial_key=repr(rp))
             if not np.allclose(ev, sums, atol=1e-7): ctx.violation('C12 spectrum: subset sums of the orbital energies differ from the many-body spectrum', dict(rp, spectrum=ev.tolist(), subset_sums=sums.tolist()))
             if abs(qh.ground_energy() - ev[0]) > 1e-7: ctx.violation('C12 ground_energy differs from the lowest eigenvalue', dict(rp, ground_energy=float(qh.ground_energy()), lowest=float(ev[0])))
+        # the same object, changed after it has been diagonalised once (chemical potential, in-place scaling): everything derived from
+        # it must follow the change
+        if n <= 4 and i % 2 == 0:
+            import copy as _copy
+            q2 = _copy.deepcopy(qh); _ = q2.diagonalizing_bogoliubov_transform(); _ = q2.ground_energy()
+            dmu = rng.choice([0.4, -0.7]); q2.add_chemical_potential(dmu)
+            if rng.random() < 0.5: q2 *= 2.0
+            try:
+                e2, W2, c2 = q2.diagonalizing_bogoliubov_transform()
+                H2m = of.get_sparse_operator(of.get_fermion_operator(q2), n).toarray(); ev2 = np.sort(np.linalg.eigvalsh(H2m))
+                sums2 = np.sort([c2 + sum(e2[j] for j in S) for r in range(n + 1) for S in itertools.combinations(range(n), r)])
+                ctx.count('spectrum_after_change', 1, nontrivial_key=repr(rp))
+                if not np.allclose(ev2, sums2, atol=1e-7) or abs(q2.ground_energy() - ev2[0]) > 1e-7:
+                    ctx.violation('C12 after add_chemical_potential / scaling of an already diagonalised QuadraticHamiltonian the orbital energies no longer generate its spectrum', dict(rp, added_chemical_potential=dmu))
+                E2, psi2 = jw_get_gaussian_state(q2)
+                if np.linalg.norm(H2m @ psi2 - E2 * psi2) > 1e-6 or abs(E2 - ev2[0]) > 1e-7:
+                    ctx.violation('C12 after add_chemical_potential / scaling of an already diagonalised QuadraticHamiltonian jw_get_gaussian_state is not its ground state', dict(rp, added_chemical_potential=dmu))
+            except Exception as e:
+                ctx.violation('C12 changed QuadraticHamiltonian: %s: %s' % (type(e).__name__, e), dict(rp, added_chemical_potential=dmu))
         A, mc = qh.majorana_form()
         add('majorana_form', '(majorana_form_ok %s %s %s %s %s)' % (T2, cnat(n), coq_fop(H), cmat(A), cC(mc)), dict(rp, call='majorana_form'), key=('m', repr(rp)))
         # Gaussian states: default (ground) and every occupied subset for small n
